@@ -1,9 +1,13 @@
 """C01 - preconditions gate every call."""
 import checker_cluster as K
+import elab_cluster as E
 import gen_checker as G
 
 PROP = "C01"
-CONE = K.MODEL_FILES + ["Gen/Generated.v", "Proofs/SkelPinChecker.v", "Proofs/CheckerFrame.v", "Proofs/CheckerProps.v", "Props/C01.v"]
+CONE = sorted(set(K.MODEL_FILES + E.MODEL_FILES + ["Gen/Generated.v", "Proofs/SkelPinChecker.v", "Proofs/CheckerFrame.v", "Proofs/CheckerProps.v", "Props/C01.v"]))
+RULE_E = ("histories of definitions as for C04 (functions with decorator stacks incl. foreign functools.wraps decorators, "
+          "DBC hierarchies with overriding members): the lists carried by the wrapper whose code evaluates the contracts - not the "
+          "one find_checker hands out - are the declared effective contracts (spec_C04).")
 RULE = ("cases cycle through the 9 callable kinds x sync/async; 1-3 classes in a chain with 0-3 own preconditions "
         "each (inherited groups as alternatives), 0-2 postconditions and snapshots, invariants around methods / "
         "properties / __init__; truth assignment random with a bias towards reaching later phases; conditions may "
@@ -12,5 +16,12 @@ RULE = ("cases cycle through the 9 callable kinds x sync/async; 1-3 classes in a
 
 
 def run(tier, replay=None):
-    return K.run(PROP, tier, CONE, "Props/C01.v", ["spec_C01"], lambda rng, n: G.gen_many(rng, n),
-                 1400, 30000, RULE, replay=replay)
+    out, build, problems = K.begin(PROP, tier, CONE, "Props/C01.v")
+    is_elab_replay = bool(replay) and "ops" in __import__("json").load(open(replay)).get("case", {})
+    if not replay or not is_elab_replay:
+        K.run_into(out, build, problems, PROP, tier, ["spec_C01"], lambda rng, n: G.gen_many(rng, n), 1400, 30000, RULE,
+                   replay=replay)
+    if not replay or is_elab_replay:
+        E.run(out, build, problems, PROP, tier, ["spec_C04"], E.default_gen, 300, 8000, RULE_E, replay=replay,
+              known={"spec_C04": "kf_C04_accept_all"})
+    return out.finish()
